@@ -401,8 +401,14 @@ func analyse(p *pkgInfo, f *ast.File, name string) {
 						rep.Unmodelled = append(rep.Unmodelled, Note{"method value of " + full + " (not a direct call)", pos(x.Pos())})
 					}
 				}
+				switch full {
+				case "(*sync.Cond).Wait", "(*sync.Cond).Signal", "(*sync.Cond).Broadcast":
+					if !called[x] {
+						rep.Unmodelled = append(rep.Unmodelled, Note{"method value of " + full + " (not a direct call)", pos(x.Pos())})
+					}
+				}
 				switch {
-				case strings.HasPrefix(full, "(*sync.Cond)"), full == "sync.Cond", full == "sync.NewCond",
+				case
 					full == "runtime.SetFinalizer",
 					full == "(sync.Locker).Lock", strings.HasPrefix(full, "(*golang.org/x/sync"):
 					rep.Unmodelled = append(rep.Unmodelled, Note{full, pos(x.Pos())})
@@ -827,7 +833,7 @@ func rewriteCall(p *pkgInfo, c *ast.CallExpr, off func(token.Pos) int, src []byt
 	}
 	if ok && obj.Pkg() != nil && obj.Pkg().Path() == "runtime" {
 		switch obj.FullName() {
-		case "runtime.GOMAXPROCS", "runtime.NumCPU":
+		case "runtime.GOMAXPROCS", "runtime.NumCPU", "runtime.Gosched":
 			// a configuration knob the simulator varies per run
 			add(off(sel.Pos()), off(sel.End())-off(sel.Pos()), "zzsim."+sel.Sel.Name)
 			rep.Rewrites[obj.FullName()]++
@@ -887,6 +893,15 @@ func rewriteCall(p *pkgInfo, c *ast.CallExpr, off func(token.Pos) int, src []byt
 		add(off(c.Fun.Pos()), off(c.Lparen)+1-off(c.Fun.Pos()), "zzsim.OnceDo("+recvText()+", ")
 		rep.Rewrites["Once.Do"]++
 		*usedSim = true
+	case "(*sync.Cond).Wait":
+		add(off(c.Fun.Pos()), off(c.Lparen)+1-off(c.Fun.Pos()), "zzsim.CondWait("+recvText())
+		rep.Rewrites["Cond.Wait"]++
+	case "(*sync.Cond).Signal":
+		add(off(c.Fun.Pos()), off(c.Lparen)+1-off(c.Fun.Pos()), "zzsim.CondSignal("+recvText())
+		rep.Rewrites["Cond.Signal"]++
+	case "(*sync.Cond).Broadcast":
+		add(off(c.Fun.Pos()), off(c.Lparen)+1-off(c.Fun.Pos()), "zzsim.CondBroadcast("+recvText())
+		rep.Rewrites["Cond.Broadcast"]++
 	case "(*sync.WaitGroup).Add":
 		add(off(c.Fun.Pos()), off(c.Lparen)+1-off(c.Fun.Pos()), "zzsim.WGAdd("+recvText()+", ")
 		rep.Rewrites["WaitGroup.Add"]++
